@@ -33,7 +33,7 @@ fn has_crlf(s: &[u8]) -> bool {
 }
 
 /// representation decision on every valid UTF-8 string of L bytes
-pub fn c17_ascii_decision<const L: usize>() {
+pub fn k17_ascii_decision<const L: usize>() {
     let bytes: [u8; L] = kani::any();
     if let Ok(s) = std::str::from_utf8(&bytes) {
         let expect = all_ascii(&bytes) && !has_crlf(&bytes);
@@ -44,7 +44,7 @@ pub fn c17_ascii_decision<const L: usize>() {
 }
 
 /// every constructor yields the ASCII form with the original bytes for ASCII text without CR LF
-pub fn c17_constructors_ascii<const L: usize>() {
+pub fn k17_constructors_ascii<const L: usize>() {
     let bytes: [u8; L] = kani::any();
     kani::assume(all_ascii(&bytes) && !has_crlf(&bytes));
     let s = std::str::from_utf8(&bytes).unwrap();
@@ -69,7 +69,7 @@ pub fn c17_constructors_ascii<const L: usize>() {
 
 /// non-ASCII or CR LF text: every constructor produces the same code-point content, of the same
 /// length (checked in the segmentation-off configuration: one item per code point)
-pub fn c17_constructors_unicode<const L: usize>() {
+pub fn k17_constructors_unicode<const L: usize>() {
     let bytes: [u8; L] = kani::any();
     if let Ok(s) = std::str::from_utf8(&bytes) {
         kani::assume(!(all_ascii(&bytes) && !has_crlf(&bytes)));
@@ -125,7 +125,7 @@ fn check_accessors(v: Utf32Str<'_>, content: &[char]) {
     assert!(v.slice(..b) == v.slice(0..b) && v.slice(a..) == v.slice(a..n) && v.slice(..) == v, "open ranges");
 }
 
-pub fn c17_accessors_ascii<const L: usize>() {
+pub fn k17_accessors_ascii<const L: usize>() {
     let bytes: [u8; L] = kani::any();
     kani::assume(all_ascii(&bytes));
     let mut content = ['\0'; L];
@@ -138,14 +138,14 @@ pub fn c17_accessors_ascii<const L: usize>() {
     kani::cover!(true);
 }
 
-pub fn c17_accessors_unicode<const L: usize>() {
+pub fn k17_accessors_unicode<const L: usize>() {
     let content: [char; L] = kani::any();
     check_accessors(Utf32Str::Unicode(&content), &content);
     kani::cover!(true);
 }
 
 /// the owned type's accessors agree with the borrowed type's
-pub fn c17_owned_accessors<const L: usize>() {
+pub fn k17_owned_accessors<const L: usize>() {
     let content: [char; L] = kani::any();
     let owned = Utf32String::Unicode(content.to_vec().into_boxed_slice());
     assert!(owned.len() == L && owned.is_empty() == (L == 0));
@@ -163,7 +163,7 @@ pub fn c17_owned_accessors<const L: usize>() {
 }
 
 /// canary: must FAIL
-pub fn c17_canary() {
+pub fn k17_canary() {
     let bytes: [u8; 2] = kani::any();
     kani::assume(all_ascii(&bytes));
     let s = std::str::from_utf8(&bytes).unwrap();
